@@ -146,7 +146,8 @@ def context(repo):
 def assignment(c, seed=0):
     """An arbitrary fractional valuation of all model variables (templates are linear, so this decides equality)."""
     vals = {}
-    i = seed
+    seed = seed or getattr(c, "seed", 0)
+    i = seed * 3
     for a in sorted(c.A, key=lambda k: (k[0]._k(), k[1])):
         i += 1
         vals[("VA", a)] = round(0.11 + 0.07 * i, 3)
@@ -641,13 +642,19 @@ def run(repo, res):
     res.floor("C04", "addConstr sites", len(c.m.sites), 14)
     res.floor("C04", "product sites", len(c.m.prods), 2)
     res.count("C04:constraint sites", len(c.m.sites))
-    r1(c, res)
+    from sa.report import seed as _seed, thorough
+
+    rounds = [0] if not thorough() else [0] + [1 + (_seed() + j) % 97 for j in range(4)]
+    for sd in rounds:
+        c.seed = sd
+        r1(c, res)
+        r3(c, res)
+        r57(c, res)
+        r6(c, res)
+        r8(c, res)
+    res.count("C04:valuations evaluated per template", len(rounds))
     r2(c, res)
-    r3(c, res)
     r4(c, res)
-    r57(c, res)
-    r6(c, res)
-    r8(c, res)
     r9(c, res)
     r10(c, res)
 
